@@ -72,6 +72,28 @@ import subprocess
 n = sum(1 for l in open('/repo/verif_contracts.go') if l.startswith('//@ fn '))
 block('FNCOUNT', str(n))
 
+def counts(path, col=1):
+    c = {}
+    if os.path.exists(path):
+        for l in open(path):
+            p = l.split()
+            if len(p) > col:
+                c[p[col]] = c.get(p[col], 0) + 1
+    return c
+m = root + '/mutation/'
+p1, p2, p2b4, p3, p1b, p2b = counts(m + 'phase1.txt'), counts(m + 'phase2.txt'), counts(m + 'phase2_before_strengthening.txt'), counts(m + 'phase3_same.txt'), counts(m + 'phase1b.txt'), counts(m + 'phase2b.txt')
+lines = []
+if p1:
+    n1 = sum(p1.values())
+    lines.append('* **Phase 1** (`mutation/phase1.txt`, the key-value, xattr, sub-document, feed, queue, clock, expiry and registry files): %d mutants; %d killed by the pinned suite, %d do not build, %d pass the suite and change no observable result of any of the 665 scenarios of the differential harness, %d pass the suite and change some scenario ("survivors": real behaviour changes the suite does not see).' % (n1, p1.get('killed-by-suite', 0), p1.get('nobuild', 0), p1.get('same', 0), p1.get('survivor', 0)))
+if p2:
+    lines.append('* **Phase 2** (`mutation/phase2.txt`): the survivors against the contracts (every function under contract the mutant can influence, all clauses): %d of %d caught when first run (`phase2_before_strengthening.txt`), **%d of %d** after the clauses listed below were added.' % (p2b4.get('CAUGHT', 0), sum(p2b4.values()), p2.get('CAUGHT', 0), sum(p2.values())))
+if p3:
+    lines.append('* **Phase 3** (`mutation/phase3_same.txt`): the %d mutants the harness cannot tell from the original, against the contracts: %d flagged, %d not (as it should be for equivalent mutants).' % (sum(p3.values()), p3.get('CAUGHT', 0), p3.get('MISSED', 0)))
+if p1b:
+    lines.append('* **Phase 1b / 2b** (`mutation/phase1b.txt`, `phase2b.txt`; bucket.go, views.go, designdoc.go, collection+query.go, payload.go, queryable.go - files the harness says little about, so every mutant that passes the suite goes to the contracts): %d mutants, %d killed by the suite, %d do not build, %d pass the suite; of those that pass, %d were flagged by the contracts and %d were not (%d not run for lack of time). The unflagged ones are mostly in code without a contract by decision (URL parsing, `OpenBucketIn`, logging, retry back-off) or in the map/reduce pipeline (11.7).' % (sum(p1b.values()), p1b.get('killed-by-suite', 0), p1b.get('nobuild', 0), p1b.get('passes-suite', 0), p2b.get('CAUGHT', 0), p2b.get('MISSED', 0), p1b.get('passes-suite', 0) - sum(p2b.values())))
+block('MUTATION', '\n'.join(lines))
+
 nr = json.load(open(root + '/notreached.json'))
 block('NOTREACHED', '\n'.join('* **%s** %s' % (k, v) for k, v in sorted(nr.items())))
 open(root + '/DESIGN.md', 'w').write(s)
